@@ -84,8 +84,23 @@ def _anytext():
     return st.lists(piece, min_size=1, max_size=10).map("".join)
 
 
+@st.composite
+def _tagged(draw):
+    """Legal text in which style tags are glued to tokens (annotating markup directly): spans returned by
+    get_citations can then contain tags, which is what the skip / wrap modes react to."""
+    t = draw(st.sampled_from(["i", "em", "b"]))
+    n = draw(st.integers(1, 99))
+    piece = st.one_of(
+        st.sampled_from([f"<{t}>§{n} of</{t}>", f"<{t}>§§{n}</{t}> and", f"§<{t}>{n}</{t}>", f"<{t}>Id.</{t}> at {n}", f"Id.<{t}> at {n}</{t}>",
+                         f"<{t}>1 U.S. {n}</{t}>", f"1 <{t}>U.S.</{t}> {n}", f"{n} F.2d<{t}> {n}</{t}>", f"<{t}>supra</{t}>, at {n}", f"x§</{t}>"]),
+        legal.fragment(hostile=False),
+    )
+    parts = draw(st.lists(piece, min_size=1, max_size=5))
+    return draw(st.sampled_from(["", "as provided in ", "See "])) + draw(st.sampled_from([" ", ". ", "; "])).join(parts) + draw(st.sampled_from(["", " the act", "."]))
+
+
 def _cases(which, ra):
-    docs = st.one_of(legal.document(hostile=True), legal.document(hostile=True), _raw(), _anytext())
+    docs = st.one_of(legal.document(hostile=True), legal.document(hostile=True), _raw(), _anytext(), _tagged())
     return docs.map(lambda t: {"text": t, "tokenizer": which, "remove_ambiguous": ra})
 
 
